@@ -40,7 +40,7 @@ def gen(tier, rng, shard, nshards):
             yield {"mode": "pinv", "m": m, "n": n, "dt": dt, "seed": S.seed(rng), "alg": S.pick(rng, [OMIT, "Auto", "LSTSQ", "CG", "CG"]),
                    "wide_rhs": bool(rng.random() < 0.25),
                    "kind": S.pick(rng, ["Dense", "Dense", "Generic", "Identity", "Diagonal", "ScalarMul", "Permutation", "Product", "ProductRect", "ProductRect", "SelfAdjoint", "PSD"]),
-                   "cols": int(S.pick(rng, [0, 1, 3])), "consistent": bool(rng.random() < 0.5)}
+                   "cols": int(S.pick(rng, [0, 1, 3, -1])), "consistent": bool(rng.random() < 0.5)}
 
 
 def operator(case, rng):
@@ -171,7 +171,7 @@ def run_pinv(ctx, case, A, M, eps, preds, rng):
     cplx = np.iscomplexobj(M)
     single = eps > 1e-10
     alg = {OMIT: None, "Auto": Auto(), "LSTSQ": LSTSQ(), "CG": CG(tol=1e-5 if single else 1e-10, max_iters=40 * max(m, n) + 50)}[case["alg"]]
-    shape = (m, ) if case["cols"] == 0 else (m, case["cols"])
+    shape = (m, ) if case["cols"] == 0 else (m, (m if m <= 8 else 3) if case["cols"] == -1 else case["cols"])  # (-1: a square right-hand-side block)
     if case["consistent"]:
         x_true = rng.standard_normal((n, ) + shape[1:]) + (1j * rng.standard_normal((n, ) + shape[1:]) if cplx else 0)
         b = M @ x_true
